@@ -220,7 +220,7 @@ class C05(core.Check):
         tags = set(tags)
         tags.add('expect:' + kind)
         return {'runs': [{'files': fl, 'argv': ['compile', '-c', fn, 'p.asm', '-o', 'out.bin'],
-                          'probes': ['steps', 'cursor'], 'step_limit': 5_000_000}],
+                          'probes': ['steps', 'cursor', 'contracts'], 'step_limit': 5_000_000}],
                 'meta': {'kind': kind, 'why': res.reason, 'image': exp}, 'tags': sorted(tags)}
 
     def invalid_zone_cases(self, rng, i):
@@ -312,6 +312,9 @@ class C05(core.Check):
         cv = ((o.get('probes') or {}).get('cursor') or {}).get('violations')
         if cv:
             vs.append(core.violated('cursor-outside-zone', {'v': cv[:3]}))
+        cb = ((o.get('probes') or {}).get('contracts') or {}).get('broken')
+        if cb:
+            vs.append(core.violated('contract-broken/MemoryZone-invariant', {'v': cb[:3]}))
         if m['image'] is not None and img != m['image']:
             vs.append(core.violated('image-differs', {'expected': m['image'][:600], 'got': img[:600], 'src': src},
                                     buckets=tags, nt=nt))
